@@ -720,6 +720,47 @@ def p_from_le_bytes(ev, st, ctx):
     return T.concat_bytes_le(arr.all_elems())
 
 
+@prim("re:core::convert::num::<impl core::convert::From<bool> for [iu](8|16|32|64|128|size)>::from")
+def p_from_bool(ev, st, ctx):
+    return T.zext(ctx.args[0], ev.scalar_width(ctx.dest_ty))
+
+
+@prim("re:core::num::<impl i(8|16|32|64)>::abs_diff")
+def p_abs_diff_signed(ev, st, ctx):
+    a, b = ctx.args
+    w = a.w
+    return T.trunc(T.uabs(T.sub(T.sext(a, 2 * w), T.sext(b, 2 * w))), w)
+
+
+@prim("re:core::num::<impl u(8|16|32|64)>::abs_diff")
+def p_abs_diff_unsigned(ev, st, ctx):
+    a, b = ctx.args
+    return T.ite(T.ult(a, b), T.sub(b, a), T.sub(a, b))
+
+
+@prim("core::slice::<impl [T]>::copy_within")
+def p_copy_within(ev, st, ctx):
+    dst = as_slice(ev, st, ctx.args[0])
+    rng = ctx.args[1]
+    dest = ctx.args[2]
+    if not (isinstance(rng, Struct) and len(rng.fields) == 2 and all(isinstance(f, T.T) and f.op == "const" for f in rng.fields)
+            and isinstance(dest, T.T) and dest.op == "const"):
+        raise Unsupported("copy_within with a symbolic range")
+    a, b = rng.fields[0].aux, rng.fields[1].aux
+    d = dest.aux
+    s0, n = win_const(dst)
+    inb = a <= b and b <= n and d <= n - (b - a) if a <= b and b <= n else False
+    precondition(ev, st, ctx, "copy_within: range and destination in bounds", T.TRUE if inb else T.FALSE)
+    if not inb:
+        return NORETURN
+    arr = ev.load(st, Ref(dst.obj, dst.path))
+    vals = [arr.get(s0 + i) for i in range(a, b)]
+    for i, v in enumerate(vals):
+        arr = arr.set(s0 + d + i, v)
+    ev.store(st, Ref(dst.obj, dst.path), arr)
+    return UNIT
+
+
 @prim("re:core::convert::num::<impl core::convert::From<u(8|16|32|64)> for [iu](16|32|64|128|size)>::from")
 def p_from_uint(ev, st, ctx):
     w = ev.scalar_width(ctx.dest_ty)
@@ -1302,6 +1343,68 @@ def p_fold(ev, st, ctx):
     box = [acc]
     _drain(ev, st, itv, ctx.fr.depth, lambda x: box.__setitem__(0, call_closure(ev, st, clo, [box[0], x], ctx.fr.depth)))
     return box[0]
+
+
+@prim("core::iter::Iterator::try_for_each", "<core::slice::Iter<'a, T> as core::iter::Iterator>::try_for_each")
+def p_try_for_each(ev, st, ctx):
+    """f(x)? for every element: the first Err leaves at once with that value and the state of that moment"""
+    from .evalmir import add_assume
+    r = ctx.args[0]
+    clo = ctx.args[1]
+    itv = ev.load(st, r) if isinstance(r, Ref) else r
+    items = []
+    itv = _drain(ev, st, itv, ctx.fr.depth, lambda x: items.append(x))
+    if isinstance(r, Ref):
+        ev.store(st, r, itv)
+    base_assume = st.assume
+    exits = []  # (condition, returned value, state at that moment)
+    okall = T.TRUE
+    final = ok(UNIT)
+    for x in items:
+        rv = call_closure(ev, st, clo, [x], ctx.fr.depth)
+        if not isinstance(rv, EnumV):
+            raise Unsupported("try_for_each: closure returned %r" % (rv,))
+        d = tconst(rv.discr)
+        is_ok = T.eq(d, T.const(0, d.w))
+        if is_ok is T.TRUE:
+            continue
+        if is_ok is T.FALSE:
+            final = rv
+            break
+        exits.append((T.and1([okall, T.bnot(is_ok)]), EnumV(1, {1: rv.payloads[1]}), st.fork()))
+        okall = T.and1([okall, is_ok])
+        add_assume(st, is_ok)
+    cur_state, cur_val = st, final
+    for c, v, s_ in reversed(exits):
+        cur_state = ev.merge_states(c, s_, cur_state)
+        cur_val = ev.merge_values(c, v, cur_val)
+    st.objs = cur_state.objs
+    st.world = cur_state.world
+    st.assume = base_assume
+    return cur_val
+
+
+@prim("core::option::Option::<T>::ok_or_else")
+def p_ok_or_else(ev, st, ctx):
+    v, clo = ctx.args
+    if not isinstance(v, EnumV):
+        raise Unsupported("ok_or_else of %r" % (v,))
+    if isinstance(v.discr, int):
+        return ok(v.payloads[1][0]) if v.discr == 1 else err(call_closure(ev, st, clo, [], ctx.fr.depth))
+    d = tconst(v.discr)
+    e = call_closure(ev, st, clo, [], ctx.fr.depth)
+    return EnumV(T.zext(T.eq(d, T.const(0, d.w)), 64), {0: (v.payloads[1][0],), 1: (e,)})
+
+
+@prim("core::option::Option::<T>::ok_or")
+def p_ok_or(ev, st, ctx):
+    v, e = ctx.args
+    if not isinstance(v, EnumV):
+        raise Unsupported("ok_or of %r" % (v,))
+    if isinstance(v.discr, int):
+        return ok(v.payloads[1][0]) if v.discr == 1 else err(e)
+    d = tconst(v.discr)
+    return EnumV(T.zext(T.eq(d, T.const(0, d.w)), 64), {0: (v.payloads[1][0],), 1: (e,)})
 
 
 @prim("core::iter::Iterator::count", "core::iter::ExactSizeIterator::len")
